@@ -8,11 +8,39 @@ pub struct ValueH { pub g: Ghost<int> }
 pub struct BlockH { pub stmts: Vec<StmtH> }
 pub struct RtErr { pub g: Ghost<int> }
 #[verifier::external_body] fn null_value() -> (r: ValueH) { unimplemented!() }
+#[verifier::external_body] fn type_mismatch() -> (r: RtErr) { unimplemented!() }
 '''
 
 MODEL = r'''
 // Ghost record of one block execution: the scope-stack depth, and which statements were executed
 pub struct Rt { pub depth: Ghost<nat>, pub executed: Ghost<Set<int>>, pub hoisted: Ghost<bool>, pub frame_resets: Ghost<nat> }
+// --- jasi: the frame mark of an iteration
+pub struct CondH { pub g: Ghost<int> }
+pub enum CondV { Bool(bool), Null, Other }
+pub struct Lp { pub has_frame: bool, pub mark: Ghost<Set<usize>>, pub resets: Ghost<nat>, pub bodies: Ghost<nat>, pub conds: Ghost<nat> }
+impl Lp {
+    // self.eval_expr(cond): the condition is evaluated once per round, before the body
+    #[verifier::external_body]
+    pub fn eval_cond(&mut self, c: &CondH) -> (r: Result<CondV, RtErr>)
+        ensures final(self).conds@ == old(self).conds@ + 1, final(self).has_frame == old(self).has_frame, final(self).mark@ == old(self).mark@, final(self).resets@ == old(self).resets@, final(self).bodies@ == old(self).bodies@ { unimplemented!() }
+    #[verifier::external_body]
+    pub fn has_frame_arena(&self) -> (r: bool) ensures r == self.has_frame { unimplemented!() }
+    // self.frame.offset(): the mark of this iteration
+    #[verifier::external_body]
+    pub fn frame_offset(&mut self) -> (r: usize)
+        ensures final(self).mark@ == old(self).mark@.insert(r), final(self).has_frame == old(self).has_frame, final(self).resets@ == old(self).resets@, final(self).bodies@ == old(self).bodies@, final(self).conds@ == old(self).conds@ { unimplemented!() }
+    // self.exec_block_with_flow(body): the mark taken before it stays the mark of this iteration
+    #[verifier::external_body]
+    pub fn exec_body(&mut self, b: &BlockH) -> (r: Result<ExecFlow, RtErr>)
+        requires old(self).conds@ == old(self).bodies@ + 1          // a body runs only after its round's condition was evaluated
+        ensures final(self).bodies@ == old(self).bodies@ + 1, final(self).mark@ == old(self).mark@, final(self).has_frame == old(self).has_frame, final(self).resets@ == old(self).resets@, final(self).conds@ == old(self).conds@ { unimplemented!() }
+    // unsafe { self.frame.reset(offset) }: only ever back to a mark taken by THIS loop statement (all of them are at or above the frame
+    // level the loop started at, so nothing allocated before the loop is reclaimed)
+    #[verifier::external_body]
+    pub fn frame_reset(&mut self, offset: usize)
+        requires old(self).has_frame, old(self).mark@.contains(offset)
+        ensures final(self).mark@ == old(self).mark@, final(self).resets@ == old(self).resets@ + 1, final(self).has_frame == old(self).has_frame, final(self).bodies@ == old(self).bodies@, final(self).conds@ == old(self).conds@ { unimplemented!() }
+}
 pub struct FuncDef { pub body: BlockH }
 impl Rt {
     // running a function body: by the resolver's rule (comot/next cannot leave a function: K:resolver:check_function_body__contract,
@@ -49,7 +77,7 @@ impl Rt {
 
 UNIT = VUnit(
     name="block_exec",
-    props=["C04", "C03"],
+    props=["C04", "C03", "C02"],
     source="src/runtime.rs",
     preamble=PRE,
     trusted=["the runtime state is a ghost record (scope depth, executed statements); exec_stmt/push_scope/pop_scope/hoist_block_functions/stmt_is_pruned are shims stating what each does to it",
@@ -94,5 +122,25 @@ UNIT = VUnit(
                         Rw("R8", r"Value::Null", "null_value()", min_matches=1),
                         Rw("R9", r"self\.relocate_return_value\(", "me.relocate_return_value(", min_matches=1)],
               real_name="Runtime::eval_function_call (after argument binding: body, scope, return value)"),
+        # jasi: each round evaluates the condition first; a non-boolean condition is a reported type mismatch; with a frame arena the frame
+        # is reset only at the END of a round that completed normally or with `next`, and only to a mark this loop statement took itself
+        # (so nothing allocated before the loop is ever reclaimed); `comot` and `return` leave without a reset
+        Block("loop_rounds", within="exec_stmt", impl="impl Runtime", arm=True,
+              anchor=r"Stmt::Loop \{ cond, body, \.\. \} =>",
+              sig="#[verifier::exec_allows_no_decreases_clause]\nfn loop_rounds(me: &mut Lp, cond: &CondH, body: &BlockH) -> (res: Result<ExecFlow, RtErr>)",
+              requires=["old(me).conds@ == old(me).bodies@", "old(me).mark@ == Set::<usize>::empty()"],
+              ensures=["res is Ok ==> (res->Ok_0 is Continue || res->Ok_0 is Return)",
+                       "res is Ok ==> final(me).resets@ - old(me).resets@ <= final(me).bodies@ - old(me).bodies@",
+                       "!old(me).has_frame ==> final(me).resets@ == old(me).resets@"],
+              rewrites=[# the loop annotation (an insertion, not a change of code)
+                        Rw("R0", r"loop \{", "loop\n invariant_except_break me.conds@ == me.bodies@,\n invariant me.has_frame == old(me).has_frame, me.bodies@ >= old(me).bodies@, me.resets@ - old(me).resets@ <= me.bodies@ - old(me).bodies@, !me.has_frame ==> me.resets@ == old(me).resets@,\n {", count=1, min_matches=1),
+                        Rw("R9", r"self\.eval_expr\(cond\)\?", "me.eval_cond(cond)?", min_matches=1),
+                        Rw("R12", r"Value::Bool\(b\) => b,\s*Value::Null => false,", "CondV::Bool(b) => b, CondV::Null => false,", min_matches=1),
+                        Rw("R6", r"return Err\(RuntimeError::new\(\s*RuntimeErrorKind::TypeMismatch,\s*cond\.span\(\),\s*\)\);", "return Err(type_mismatch());", min_matches=1),
+                        Rw("R9", r"self\.has_frame_arena\(\)", "me.has_frame_arena()", min_matches=1),
+                        Rw("R9", r"self\.frame\.offset\(\)", "me.frame_offset()", min_matches=1),
+                        Rw("R9", r"self\.exec_block_with_flow\(body\)\?", "me.exec_body(body)?", min_matches=1),
+                        Rw("R3", r"unsafe \{ self\.frame\.reset\(offset\) \};", "me.frame_reset(offset);", min_matches=1)],
+              real_name="Runtime::exec_stmt (Stmt::Loop arm: rounds and the per-round frame reset)"),
     ],
 )
